@@ -6,6 +6,7 @@ CONSTANTS
   UseQueue = FALSE
   SkipQueue = FALSE
   Faults = FALSE
+  FaultKinds = {"crash", "reject", "third"}
   MaxC = 9
   RepStatuses = {"SUCCESSFUL", "FAILED"}
   Atomic = TRUE
